@@ -30,9 +30,16 @@ META = {
 
 def check(run):
     t = run.tier == "thorough"
-    run.mc("MC_Crypto", consts={"ChecksAuth": True, "MaxSteps": 5 if t else 4}, invariants=["VerifyImpliesAuthentic", "OwnerNeverImpersonated"], tag="MC_Crypto_checks_auth")
-    run.mc("MC_Crypto", consts={"ChecksAuth": False, "MaxSteps": 3}, invariants=["VerifyImpliesAuthentic"], tag="MC_Crypto_no_auth_check",
+    run.mc("MC_Crypto", consts={"ChecksAuth": True, "MaxSteps": 5 if t else 4, "Flaw": "none", "Leaked": False}, invariants=["VerifyImpliesAuthentic", "OwnerNeverImpersonated"], tag="MC_Crypto_checks_auth")
+    run.mc("MC_Crypto", consts={"ChecksAuth": False, "MaxSteps": 3, "Flaw": "none", "Leaked": False}, invariants=["VerifyImpliesAuthentic"], tag="MC_Crypto_no_auth_check",
            expect_violation="VerifyImpliesAuthentic", workers=2)
+    # a leaked transient key: the sound verifier still accepts only what the identity authorised; a verifier that forgets the expiry, and one
+    # that takes a legacy LeaseSet's own signing_key field for a verification key, are refuted
+    run.mc("MC_Crypto", consts={"ChecksAuth": True, "MaxSteps": 3, "Flaw": "none", "Leaked": True}, invariants=["VerifyImpliesAuthentic"], tag="MC_Crypto_leaked_sound", workers=4)
+    run.mc("MC_Crypto", consts={"ChecksAuth": True, "MaxSteps": 3, "Flaw": "cache-no-expiry", "Leaked": True}, invariants=["VerifyImpliesAuthentic"],
+           tag="MC_Crypto_cache_no_expiry", expect_violation="VerifyImpliesAuthentic", workers=2)
+    run.mc("MC_Crypto", consts={"ChecksAuth": True, "MaxSteps": 3, "Flaw": "accepts-revkey", "Leaked": False}, invariants=["VerifyImpliesAuthentic"],
+           tag="MC_Crypto_accepts_revkey", expect_violation="VerifyImpliesAuthentic", workers=2)
     run.gen("Gen_C05")
     run.replay_and_judge()
     return vlib.finish(run, "model_checking", RULE, ASSUME)
